@@ -258,6 +258,12 @@ class Signal(np.lib.mixins.NDArrayOperatorsMixin):
     @sample_rate.setter
     def sample_rate(self, sample_rate):
         try:
+            if sample_rate.unit.physical_type != "frequency" or not isinstance(
+                sample_rate.unit, u.UnitBase
+            ):
+                # (convertible to Hz is not enough: logarithmic units, or lengths
+                # under enabled spectral equivalencies, are not frequencies)
+                raise ValueError
             temp = sample_rate.to(u.Hz)
             value = temp.value.astype(np.float64)
             if not (temp.isscalar and np.isrealobj(temp.value) and value > 0):
@@ -534,6 +540,12 @@ class RadioSignal(Signal):
     @center_freq.setter
     def center_freq(self, center_freq):
         try:
+            if center_freq.unit.physical_type != "frequency" or not isinstance(
+                center_freq.unit, u.UnitBase
+            ):
+                # (convertible to Hz is not enough: logarithmic units, or lengths
+                # under enabled spectral equivalencies, are not frequencies)
+                raise ValueError
             temp = center_freq.to(u.Hz)
             if not (temp.isscalar and np.isrealobj(temp.value)):
                 raise ValueError
@@ -558,6 +570,12 @@ class RadioSignal(Signal):
     @chan_bw.setter
     def chan_bw(self, chan_bw):
         try:
+            if chan_bw.unit.physical_type != "frequency" or not isinstance(
+                chan_bw.unit, u.UnitBase
+            ):
+                # (convertible to Hz is not enough: logarithmic units, or lengths
+                # under enabled spectral equivalencies, are not frequencies)
+                raise ValueError
             temp = chan_bw.to(u.Hz)
             value = temp.value.astype(np.float64)
             if not (temp.isscalar and np.isrealobj(temp.value) and value > 0):
